@@ -379,6 +379,9 @@ func (cs *Contracts) loadFile(path, pkgPath string) error {
 			if l.kw == "pred" {
 				p.Result = ""
 			}
+			if other, dup := cs.Preds[p.Name]; dup {
+				return fmt.Errorf("%s:%d: pred/fn %s is already defined in package %q (names are global): rename one of them", path, l.line, p.Name, other.Pkg)
+			}
 			cs.Preds[p.Name] = p
 		case "ghost":
 			f := strings.Fields(l.rest)
